@@ -454,6 +454,12 @@ def handle (line : String) : String :=
       match splitBar rest with
       | [rd, wr] => pure (serialCase true (← parseMsg m) (← parseREvents rd) (← parseWEvents wr))
       | _ => none
+  | "serialts" :: _wms :: _rms :: m :: "|" :: rest => orBad do
+      -- slow port: the latencies are inside the write / read calls; the model's event sequence
+      -- (and therefore where the pauses are owed) does not depend on them
+      match splitBar rest with
+      | [rd, wr] => pure (serialCase true (← parseMsg m) (← parseREvents rd) (← parseWEvents wr))
+      | _ => none
   | "odk" :: n :: signs :: rest => orBad do
       match splitBar rest with
       | [prior, rd, wr] =>
